@@ -41,10 +41,10 @@ MIN_COUNTERS = {
     "audit_events": {"quick": 10000, "thorough": 200000},
     "record_compared": {"quick": 400, "thorough": 8000},
     "taint_runs": {"quick": 400, "thorough": 8000},
-    "faults_fired": {"quick": 100, "thorough": 2000},
+    "faults_fired": {"quick": 40, "thorough": 400},
     "control_canary_fired": {"quick": 5, "thorough": 50},
 }
-UNIT_TIMEOUT = 1200
+UNIT_TIMEOUT = 150
 MARK = "VYTAINT"
 
 PAYLOADS = [
@@ -172,8 +172,8 @@ def units(tier, seed):
         u.append({"kind": "model", "seed": seed, "idx": i, "n": 60 if q else 100})
     for i in range(24 if q else 240):
         u.append({"kind": "taint", "seed": seed, "idx": i, "n": 40 if q else 60})
-    for i in range(32 if q else 320):
-        u.append({"kind": "fault", "seed": seed, "idx": i, "n": 25 if q else 40})
+    for i in range(64 if q else 640):
+        u.append({"kind": "fault", "seed": seed, "idx": i, "n": 40})
     return u
 
 
@@ -384,9 +384,12 @@ def run_unit(unit):
                                        "audit_events": len(got["events"]), "fault": case["fault"]})
         else:
             text, inputs, flags = case["text"], case["inputs"], case["flags"]
-            got = run_online(text, inputs, flags, timeout=10)
+            got = run_online(text, inputs, flags, timeout=4)
             if got["error"] in ("watchdog", "MemoryError"):
-                res["inconclusive"].append({"why": got["error"], "program": text})
+                # payload text run as *Vyxal* code by Ė may loop; containment monitors still saw the run
+                res["skips"]["taint-program-did-not-terminate"] = res["skips"].get("taint-program-did-not-terminate", 0) + 1
+                for mech, what in containment_violations(dict(got, error=None), text):
+                    add_violation(res, mech, f"program {text!r} inputs={inputs} flags={flags!r}: {what}", replay, program=text)
                 continue
             observe(got)
             c["taint_runs"] = c.get("taint_runs", 0) + 1
